@@ -107,6 +107,18 @@ func init() {
 			s.Held(delta)
 		}
 	}
+	verifhook.CondW = func(key uintptr, point string) bool {
+		if s := kernel.Cur(); s != nil {
+			s.CondWait(key, point)
+			return true
+		}
+		return false
+	}
+	verifhook.CondS = func(key uintptr, broadcast bool) {
+		if s := kernel.Cur(); s != nil {
+			s.CondSignal(key, broadcast)
+		}
+	}
 	verifhook.SelB = func(point string, k int) {
 		if s := kernel.Cur(); s != nil {
 			s.SelBegin(point, k)
